@@ -16,7 +16,7 @@
    forbid it - lower layers are untouched).  The exact behaviour is stated instead. *)
 From Coq Require Import List NArith Bool Arith.
 From Mila Require Import Lib.Bytes Lib.Machine Model.Localize Proofs.LocalizeProofs Model.LayeredFS
-  Proofs.LayeredFSBase Proofs.LayeredFSStack.
+  Proofs.LayeredFSBase Proofs.LayeredFSStack Proofs.LayeredFSList Proofs.LayeredFSWf.
 Import ListNotations.
 Local Open Scope N_scope.
 
@@ -109,6 +109,17 @@ Section Codec.
        forall q, l_get top' q = l_get top q \/
                  (In q (proper_prefixes pp) /\ l_get top q = None /\ l_get top' q = Some Dir)).
   Proof. exact (write_fail_top compress). Qed.
+
+  (* on well-formed layers (an invariant, below) a failed write of a path WITHOUT trailing '/' changes nothing *)
+  Theorem C12_write_fail_unchanged : forall S p b loc S' r s pp,
+    wf_fs S -> fs_addr S p loc = FOk (s, (pp, false)) ->
+    fs_write compress S p b loc = (S', r) -> r <> FOk tt -> S' = S.
+  Proof. exact (fs_write_fail_wf compress). Qed.
+
+  (* layers stay directory trees (no duplicate entries, plain names, every ancestor of an entry is a directory)
+     along every history of operations *)
+  Theorem C12_wf_invariant : forall os S, wf_fs S -> wf_fs (fs_run compress decompress S os).
+  Proof. exact (fs_run_wf compress decompress). Qed.
 
   Theorem C12_create_dir_top_only : forall S p loc S' r,
     fs_create_dir S p loc = (S', r) ->
